@@ -6,8 +6,8 @@
      client_base.py  parse_authn_request_response 803-811 (store only if assertion,
                      no EncryptedAssertion left, name_id)
      client.py       global_logout / do_logout / local_logout / is_logged_in /
-                     handle_logout_response / handle_logout_request (as of 0bae05f7; the
-                     behaviour before de5f1fed / 73294247 / 0bae05f7 is kept as the *_v0 definitions)
+                     handle_logout_response / handle_logout_request (as of e58d2614; the
+                     behaviour before de5f1fed / 73294247 / 0bae05f7 / 10d8560b / e58d2614 is kept as the *_v0 definitions)
    Subjects, issuers, session tokens and request ids are natural numbers (the
    harness maps NameIDs, entity ids, session infos and generated message ids to
    them).  Python dicts are insertion-ordered association lists.  The list object
@@ -238,8 +238,9 @@ Definition local_logout_v0 (st : state) (s : subj) : option state :=
   | Some _ => Some (set_db st (remove s (db st)))
   end.
 
-(* the for-loop of do_logout over the list object's content.  Result: state and
-   either an escaping exception or (not_done, responses). *)
+(* the for-loop of do_logout over a snapshot l of the list object's content (`entity_ids[:]`, 10d8560b).
+   Result: state and either an escaping exception or (not_done, responses).  An IdP whose synchronous
+   answer is accepted is removed from the list object at once (10d8560b). *)
 Fixpoint logout_loop (w : world) (ans : list soap_answer) (s : subj) (ref : nat) (dl : option Z)
          (l : list issuer) (st : state) (not_done : list issuer) (acc : list sent)
   : state * (exn + list issuer * list sent) :=
@@ -256,7 +257,8 @@ Fixpoint logout_loop (w : world) (ans : list soap_answer) (s : subj) (ref : nat)
               match b with
               | SOAP =>
                   match answer ans e with
-                  | SA_ok => logout_loop w ans s ref dl l' st (remove_first e not_done) (acc ++ [SentSoap e])
+                  | SA_ok => logout_loop w ans s ref dl l' (set_heap st ref (remove_first e (heap st ref)))
+                                         (remove_first e not_done) (acc ++ [SentSoap e])
                   | SA_fail => (st, inl StatusErr)   (* parse_logout_request_response raises *)
                   | SA_http | SA_none => logout_loop w ans s ref dl l' st not_done acc
                   end
@@ -270,13 +272,55 @@ Fixpoint logout_loop (w : world) (ans : list soap_answer) (s : subj) (ref : nat)
       end
   end.
 
-(* fix 0bae05f7, after a pass that did not raise: the IdPs that answered synchronously (SOAP, Success)
-   are removed from the shared list object; when that empties the list the local session ends.
-   Nothing of this happens when the pass raises (an exception in the loop, or LogoutError for not_done). *)
+(* before 10d8560b: the loop did not touch the list object *)
+Fixpoint logout_loop_v0 (w : world) (ans : list soap_answer) (s : subj) (ref : nat) (dl : option Z)
+         (l : list issuer) (st : state) (not_done : list issuer) (acc : list sent)
+  : state * (exn + list issuer * list sent) :=
+  match l with
+  | [] => (st, inr (not_done, acc))
+  | e :: l' =>
+      match choose w e with
+      | None => (st, inl UnsupportedErr)
+      | Some b =>
+          match c_get (now st) (db st) s e false with
+          | G_none => (st, inl AttrErr)
+          | _ =>
+              match b with
+              | SOAP =>
+                  match answer ans e with
+                  | SA_ok => logout_loop_v0 w ans s ref dl l' st (remove_first e not_done) (acc ++ [SentSoap e])
+                  | SA_fail => (st, inl StatusErr)
+                  | SA_http | SA_none => logout_loop_v0 w ans s ref dl l' st not_done acc
+                  end
+              | _ =>
+                  let r := next_rid st in
+                  logout_loop_v0 w ans s ref dl l'
+                    (add_pending st {| p_entity := e; p_ref := ref; p_subj := s; p_expire := dl |})
+                    (remove_first e not_done) (acc ++ [SentPending e b r])
+              end
+          end
+      end
+  end.
+
+(* fix 0bae05f7 (as changed by 10d8560b), after a pass that did not raise: when some IdP has answered
+   synchronously in this pass and the list object is empty, the local session ends. *)
 Definition soap_answered (acc : list sent) : list issuer :=
   flat_map (fun x => match x with SentSoap i => [i] | SentPending _ _ _ => [] end) acc.
-Definition remove_all (es l : list issuer) : list issuer := fold_left (fun l e => remove_first e l) es l.
 Definition finish_pass (s : subj) (ref : nat) (acc : list sent) (st : state) : state * out :=
+  match soap_answered acc with
+  | [] => (st, OSent acc)
+  | _ =>
+      match heap st ref with
+      | [] => match local_logout st s with
+              | None => (st, OExn KeyErr)
+              | Some st3 => (st3, OSent acc)
+              end
+      | _ => (st, OSent acc)
+      end
+  end.
+(* 0bae05f7 before 10d8560b: the synchronous answers were recorded only here, after a pass that did not raise *)
+Definition remove_all (es l : list issuer) : list issuer := fold_left (fun l e => remove_first e l) es l.
+Definition finish_pass_v0 (s : subj) (ref : nat) (acc : list sent) (st : state) : state * out :=
   match soap_answered acc with
   | [] => (st, OSent acc)
   | answered =>
@@ -312,6 +356,9 @@ Definition global_logout (w : world) (ans : list soap_answer) (s : subj) (dl : o
   | Some l => let ref := next_ref st in do_logout w ans s ref dl (alloc st (keys l))
   end.
 
+Definition drop_moot (ref : nat) (i : issuer) (p : list (rid * pentry)) : list (rid * pentry) :=
+  filter (fun rp => negb ((p_ref (snd rp) =? ref)%nat && (p_entity (snd rp) =? i)%nat)) p.
+
 Definition handle_logout_response (w : world) (ans : list soap_answer) (r : rid) (i : issuer) (success : bool)
            (st : state) : state * out :=
   if negb success then (st, OExn StatusErr)      (* parse_logout_request_response: status_ok raises *)
@@ -321,7 +368,9 @@ Definition handle_logout_response (w : world) (ans : list soap_answer) (r : rid)
     | Some p =>
         (* fix de5f1fed: issuer != status["entity_id"] => LogoutError before the entry is touched *)
         if negb (p_entity p =? i)%nat then (st, OExn LogoutErr) else
-        let st1 := set_pend st (remove r (pend st)) in
+        (* del self.state[in_response_to]; fix e58d2614: the issuer's other requests that hold the same
+           list object are dropped as well *)
+        let st1 := set_pend st (drop_moot (p_ref p) i (remove r (pend st))) in
         let l := heap st1 (p_ref p) in
         if list_eqb l [i] then
           match local_logout st1 (p_subj p) with
@@ -426,10 +475,12 @@ Definition final (w : world) (st : state) (h : list op) : state :=
    (party check) and 73294247 (purge), kept for the refutation theorems:
    party = false : handle_logout_response does not compare the issuer with the addressee;
    prg   = false : local_logout leaves the subject's pending requests in Saml2Client.state;
-   soap  = false : (before 0bae05f7) do_logout does no bookkeeping for synchronous answers.
-   `step_v0 true true true` is `step`. *)
+   soap  = false : (before 0bae05f7) do_logout does no bookkeeping for synchronous answers;
+   early = false : (before 10d8560b) synchronous answers are recorded only after a pass that does not raise;
+   moot  = false : (before e58d2614) the other requests to a party that has answered stay pending.
+   `step_v0 true true true true true` is `step`. *)
 Section V0.
-  Variables (party prg soap : bool).
+  Variables (party prg soap early moot : bool).
   Definition local_logout_x (st : state) (s : subj) : option state :=
     if prg then local_logout st s else local_logout_v0 st s.
 
@@ -442,9 +493,10 @@ Section V0.
       end
     else
       let l := heap st ref in
-      match logout_loop w ans s ref dl l st l [] with
+      match (if soap && early then logout_loop else logout_loop_v0) w ans s ref dl l st l [] with
       | (st', inl e) => (st', OExn e)
-      | (st', inr ([], acc)) => if soap then finish_pass s ref acc st' else (st', OSent acc)
+      | (st', inr ([], acc)) =>
+          if soap then (if early then finish_pass else finish_pass_v0) s ref acc st' else (st', OSent acc)
       | (st', inr (_ :: _, _)) => (st', OExn LogoutErr)
       end.
 
@@ -463,7 +515,7 @@ Section V0.
       | None => (st, OExn KeyErr)
       | Some p =>
           if party && negb (p_entity p =? i)%nat then (st, OExn LogoutErr) else
-          let st1 := set_pend st (remove r (pend st)) in
+          let st1 := set_pend st (if moot then drop_moot (p_ref p) i (remove r (pend st)) else remove r (pend st)) in
           let l := heap st1 (p_ref p) in
           if list_eqb l [i] then
             match local_logout_x st1 (p_subj p) with
